@@ -24,7 +24,12 @@ pub struct Case {
 
 pub fn strategy(max_n: usize) -> impl Strategy<Value = Case> {
     (
-        2usize..=max_n,
+        prop_oneof![
+            4 => 2usize..=max_n.min(24),
+            2 => 31usize..=34,
+            1 => 63usize..=66,
+            1 => 2usize..=max_n,
+        ],
         0usize..=2,
         0usize..=2,
         vec(1usize..=3, 2),
@@ -100,7 +105,9 @@ fn attempt(case: &Case, w: usize, timeout_ms: u64) -> Result<(bool, CaseInfo, Va
                 2 => "2",
                 3..=7 => "3-7",
                 8..=23 => "8-23",
-                _ => "24+",
+                24..=32 => "24-32",
+                33..=64 => "33-64",
+                _ => "65+",
             }
         ))
         .class(&format!("position={}", position))
@@ -151,14 +158,14 @@ pub fn check(case: &Case, w: usize) -> CheckResult {
 
 pub fn run(ctx: &mut Ctx) {
     ctx.hang_limit = std::time::Duration::from_secs(600);
-    ctx.rule = "layered configuration with one layer of n mutually independent targets (n in 2..24 quick / 2..64 thorough) placed first / in the middle / last, \
+    ctx.rule = "layered configuration with one layer of n mutually independent targets (n in 2..24, and the size boundaries 31-34 and 63-66; thorough: up to 130) placed first / in the middle / last, \
 1-3 commands, tokio worker threads in {1,2,4,16}; the groups are read from `analyze --target-groups`, one group of size >= 2 is chosen and all its members run the helper in \
 barrier mode (wait until all members have started) under the 1st-3rd command. oracle: run exits 0, every member started, no barrier time-out (30 s, confirmed with 60 s). \
 non-trivial = group size >= 3; distinct by SHA-256"
         .to_string();
     ctx.assumptions = vec!["'forever' is approximated by 30 s + 60 s for a rendezvous that takes milliseconds".into()];
     let n = ctx.n(150, 2000);
-    let max_n = if ctx.thorough() { 64 } else { 24 };
+    let max_n = if ctx.thorough() { 130 } else { 24 };
     ctx.drive("run", || strategy(max_n), n, check);
 }
 
